@@ -201,6 +201,22 @@ func NewCase(g *Gen, id int, forceValidate *bool) *Case {
 
 	var structs []*Node
 	structNodes(n, &structs)
+	// a struct below a slice is visited once per element; visits on nil / non-map elements are not
+	// recorded, so the recorded order says nothing about them
+	underSlice := map[*Node]bool{}
+	var mark func(x *Node, below bool)
+	mark = func(x *Node, below bool) {
+		if x.Kind == KStruct && below {
+			underSlice[x] = true
+		}
+		for _, f := range x.Fields {
+			mark(f.Node, below)
+		}
+		if x.Elem != nil {
+			mark(x.Elem, below || x.Kind == KSlice)
+		}
+	}
+	mark(n, false)
 
 	// pooled objects: freshly allocated (path builders at their initial capacity, ...), whatever the
 	// previous cases left behind, or *dirty* objects with every field set to junk (what sync.Pool may
@@ -233,7 +249,7 @@ func NewCase(g *Gen, id int, forceValidate *bool) *Case {
 				continue
 			}
 			vs := log.visits[s]
-			if validate || !c.Wrapped || len(vs) == 0 {
+			if validate || !c.Wrapped || len(vs) == 0 || underSlice[s] {
 				// no recording provider saw this struct (nil or non-map data, or an unwrapped input):
 				// the order its fields were visited in is not known
 				known = false
